@@ -175,6 +175,39 @@ def _check_case(durs, cols, off, res, light_too=True):
                     break
     except Exception as e:
         res.violation(f"C17|n={len(durs)}|route|raises:{type(e).__name__}", repr(e), dict(case0))
+    # (f) cycles and lights that have been OPERANDS of read-only operations before (and between) the queries: ==, !=, membership in a list, hash / set
+    #     membership, str / repr, against an equal cycle, a cycle with the same offset and the same number of elements in another order (rotated,
+    #     reversed, sorted by colour name), a cycle with another offset, and a non-cycle.  Every operand keeps the definition it was constructed with.
+    try:
+        import warnings as _w
+        def mkc(cs, ds, o=off):
+            return TrafficLightCycle([TrafficLightCycleElement(c, d) for c, d in zip(cs, ds)], time_offset=o)
+        pairs_ = list(zip(cols, durs))
+        orders = {"rotated": pairs_[1:] + pairs_[:1], "reversed": pairs_[::-1], "sorted-by-colour-name": sorted(pairs_, key=lambda p: (p[0].value, p[1])),
+                  "sorted-descending": sorted(pairs_, key=lambda p: (p[0].value, p[1]), reverse=True)}
+        subjects = []
+        for oname, prs in orders.items():
+            a, b = mk(), mkc([p[0] for p in prs], [p[1] for p in prs])
+            la, lb = TrafficLight(20, np.array([0.0, 0.0]), mk()), TrafficLight(20, np.array([0.0, 0.0]), mkc([p[0] for p in prs], [p[1] for p in prs]))
+            primed = mk(); primed.get_state_at_time_step(off + 1)
+            with _w.catch_warnings():
+                _w.simplefilter("ignore")
+                for x, y in ((a, b), (la, lb), (primed, b)):
+                    _ = (x == y, x != y, y == x, x in [y], y in [x, y], hash(x), hash(y), len({x, y}), str(x), repr(y), x == mk() if not isinstance(x, TrafficLight) else None,
+                         x == 5, x == mkc(cols, durs, off + 1) if not isinstance(x, TrafficLight) else None)
+            expb = [c for c, d in prs for _ in range(d)]
+            subjects += [(f"compared-with-{oname}-cycle", a, expanded), (f"{oname}-cycle-after-comparison", b, expb), (f"light-compared-with-light-of-{oname}-cycle", la, expanded),
+                         (f"light-of-{oname}-cycle-after-comparison", lb, expb), (f"queried-then-compared-with-{oname}-cycle", primed, expanded)]
+        for t in ts:
+            for lab, obj, ex in subjects:
+                res.evals += 1; res.transitions += 1
+                got = obj.get_state_at_time_step(t)
+                if got != ex[(t - off) % T]:
+                    res.violation(f"C17|n={len(durs)}|route:{lab}|wrong-state", f"{case0} t={t}: got {got} expected {ex[(t - off) % T]}", dict(case0, t=t))
+                    subjects = [s_ for s_ in subjects if s_[0] != lab]
+                    break
+    except Exception as e:
+        res.violation(f"C17|n={len(durs)}|route:comparisons|raises:{type(e).__name__}", repr(e), dict(case0))
     # the statement quantifies over every cycle: the 'active' flag (constructor argument and public setter, on the cycle and on the light)
     # is not part of the cycle definition and must not change the reported state
     try:
